@@ -17,6 +17,7 @@
 package grpc
 
 import (
+	"bytes"
 	"context"
 	"errors"
 	"io"
@@ -31,6 +32,8 @@ import (
 	"testing/synctest"
 	"time"
 
+	"golang.org/x/net/http2"
+	"golang.org/x/net/http2/hpack"
 	"google.golang.org/grpc/codes"
 	"google.golang.org/grpc/credentials/insecure"
 	"google.golang.org/grpc/encoding"
@@ -485,9 +488,222 @@ func vServerStopExecSrv(cfg []int64, ops [][]int64) (obs [][]int64, nontrivial b
 	return obs, sawG && sawBlockedG || sawStop, []string{"server"}
 }
 
+// ---- cfg [1, N, expected, workers, 1, rounds]: handler limit on a real Server ----
+// grpc.MaxConcurrentStreams(N) + grpc.NumStreamWorkers(workers) over net.Pipe in a synctest
+// bubble.  Per round: N RPCs whose handlers ignore their context start; the client cancels
+// them (their streams leave activeStreams, the handlers keep running); N more RPCs are
+// started on the same connection - they must wait for the handler quota; the first N are
+// released, the second N run, and are released.  Every handler counts itself in and out:
+// obs [[N, max handlers running at once, handlers completed]] (clauses 2 and 3).
+func vServerStopExecMaxH(cfg []int64, ops [][]int64) (obs [][]int64, nontrivial bool, tags []string) {
+	n, workers, rounds := cfg[1], cfg[3], int64(1)
+	if len(cfg) > 5 && cfg[5] > 0 {
+		rounds = cfg[5]
+	}
+	if n < 1 || n > 8 || workers < 0 || workers > 16 || rounds > 8 {
+		return [][]int64{{n, 0, cfg[2]}}, false, nil
+	}
+	var cur, max, completed atomic.Int64
+	synctest.Test(vServerStopT, func(t *testing.T) {
+		var gmu sync.Mutex
+		gate := make(chan struct{})
+		handler := func(_ any, ss ServerStream) error {
+			var req []byte
+			ss.RecvMsg(&req)
+			gmu.Lock()
+			g := gate
+			gmu.Unlock()
+			c := cur.Add(1)
+			for {
+				m := max.Load()
+				if c <= m || max.CompareAndSwap(m, c) {
+					break
+				}
+			}
+			<-g // ignores ss.Context()
+			cur.Add(-1)
+			completed.Add(1)
+			return nil
+		}
+		lis := &vServerStopLis{ch: make(chan net.Conn), done: make(chan struct{})}
+		sopts := []ServerOption{UnknownServiceHandler(handler), MaxConcurrentStreams(uint32(n))}
+		if workers > 0 {
+			sopts = append(sopts, NumStreamWorkers(uint32(workers)))
+		}
+		srv := NewServer(sopts...)
+		go srv.Serve(lis)
+		dialer := func(ctx context.Context, _ string) (net.Conn, error) {
+			c1, c2 := net.Pipe()
+			select {
+			case lis.ch <- c2:
+				return c1, nil
+			case <-lis.done:
+				c1.Close()
+				c2.Close()
+				return nil, errors.New("verif: listener closed")
+			case <-ctx.Done():
+				c1.Close()
+				c2.Close()
+				return nil, ctx.Err()
+			}
+		}
+		cc, err := NewClient("passthrough:///verif", WithTransportCredentials(insecure.NewCredentials()), WithContextDialer(dialer))
+		if err != nil {
+			panic("verif: NewClient: " + err.Error())
+		}
+		ctx, cancel := context.WithCancel(context.Background())
+		cc.Connect()
+		synctest.Wait()
+		desc := &StreamDesc{StreamName: "M", ClientStreams: true, ServerStreams: true}
+		start := func(rctx context.Context) {
+			go func() {
+				cs, err := cc.NewStream(rctx, desc, "/v.S/0", CallContentSubtype("vserverstop"))
+				if err != nil {
+					return
+				}
+				req := []byte{1}
+				cs.SendMsg(&req)
+				cs.CloseSend()
+				for {
+					var resp []byte
+					if cs.RecvMsg(&resp) != nil {
+						return
+					}
+				}
+			}()
+		}
+		for r := int64(0); r < rounds; r++ {
+			g1 := gate
+			c1, cancel1 := context.WithCancel(ctx)
+			for i := int64(0); i < n; i++ {
+				start(c1)
+			}
+			synctest.Wait()
+			cancel1() // RST_STREAM: the streams are gone, the handlers still run
+			synctest.Wait()
+			g2 := make(chan struct{})
+			gmu.Lock()
+			gate = g2
+			gmu.Unlock()
+			for i := int64(0); i < n; i++ {
+				start(ctx)
+			}
+			synctest.Wait()
+			close(g1)
+			synctest.Wait()
+			g3 := make(chan struct{})
+			gmu.Lock()
+			gate = g3
+			gmu.Unlock()
+			close(g2)
+			synctest.Wait()
+		}
+		cancel()
+		synctest.Wait()
+		srv.Stop()
+		cc.Close()
+		lis.Close()
+		synctest.Wait()
+	})
+	return [][]int64{{n, max.Load(), completed.Load()}}, max.Load() == n, []string{"maxhandlers"}
+}
+
+// ---- cfg [5]: a raw HTTP/2 client that opens a stream after the final GOAWAY ----
+// Stream 1 is opened and its handler blocks; GracefulStop is called; the raw client acks the
+// drain PING, so the server writes the final GOAWAY (last stream 1) and keeps the connection
+// for stream 1; then the client sends HEADERS + DATA for stream 3.  obs is a server trace
+// (same words as cfg [2,...]): [1,0,events] [3,events] [1,0,events]; a handler start in the
+// last word is clause 6.
+func vServerStopExecRaw(cfg []int64, ops [][]int64) (obs [][]int64, nontrivial bool, tags []string) {
+	goaways := 0
+	synctest.Test(vServerStopT, func(t *testing.T) {
+		env := &vServerStopEnv{gates: map[int64]chan vServerStopRel{}, kind: map[int64]int64{}, ret: map[int64]bool{}, started: map[int64]bool{}}
+		env.gates[0] = make(chan vServerStopRel, 1)
+		env.gates[1] = make(chan vServerStopRel, 1)
+		lis := &vServerStopLis{ch: make(chan net.Conn), done: make(chan struct{})}
+		srv := NewServer(UnknownServiceHandler(env.handler))
+		go srv.Serve(lis)
+		c1, c2 := net.Pipe()
+		lis.ch <- c2
+		var wmu, gmu sync.Mutex
+		fr := http2.NewFramer(c1, c1)
+		go func() {
+			for {
+				f, err := fr.ReadFrame()
+				if err != nil {
+					return
+				}
+				switch f := f.(type) {
+				case *http2.SettingsFrame:
+					if !f.IsAck() {
+						wmu.Lock()
+						fr.WriteSettingsAck()
+						wmu.Unlock()
+					}
+				case *http2.PingFrame:
+					if !f.IsAck() {
+						wmu.Lock()
+						fr.WritePing(true, f.Data)
+						wmu.Unlock()
+					}
+				case *http2.GoAwayFrame:
+					gmu.Lock()
+					goaways++
+					gmu.Unlock()
+				}
+			}
+		}()
+		c1.Write([]byte(http2.ClientPreface))
+		wmu.Lock()
+		fr.WriteSettings()
+		wmu.Unlock()
+		synctest.Wait()
+		open := func(streamID uint32, id int64) {
+			var hb bytes.Buffer
+			enc := hpack.NewEncoder(&hb)
+			for _, kv := range [][2]string{{":method", "POST"}, {":scheme", "http"}, {":path", "/v.S/" + strconv.FormatInt(id, 10)},
+				{":authority", "verif"}, {"content-type", "application/grpc+vserverstop"}, {"te", "trailers"}} {
+				enc.WriteField(hpack.HeaderField{Name: kv[0], Value: kv[1]})
+			}
+			wmu.Lock()
+			fr.WriteHeaders(http2.HeadersFrameParam{StreamID: streamID, BlockFragment: hb.Bytes(), EndHeaders: true})
+			fr.WriteData(streamID, true, []byte{0, 0, 0, 0, 1, 1})
+			wmu.Unlock()
+		}
+		word := func(w ...int64) {
+			synctest.Wait()
+			time.Sleep(2 * time.Second)
+			synctest.Wait()
+			obs = append(obs, append(w, env.take()...))
+		}
+		open(1, 0)
+		word(1, 0)
+		go func() { srv.GracefulStop(); env.log(14, 0, 0) }()
+		word(3)
+		open(3, 1) // after the final GOAWAY
+		word(1, 0)
+		env.gates[0] <- vServerStopRel{code: 0}
+		env.gates[1] <- vServerStopRel{code: 0}
+		synctest.Wait()
+		time.Sleep(2 * time.Second)
+		synctest.Wait()
+		srv.Stop()
+		c1.Close()
+		lis.Close()
+		synctest.Wait()
+	})
+	return obs, goaways >= 2, []string{"raw"}
+}
+
 func vServerStopExec(cfg []int64, ops [][]int64) ([][]int64, bool, []string) {
+	if len(cfg) > 4 && cfg[0] == 1 && cfg[4] == 1 {
+		return vServerStopExecMaxH(cfg, ops)
+	}
 	if len(cfg) > 0 && cfg[0] == 1 {
 		return vServerStopExecStress(cfg, ops)
+	}
+	if len(cfg) > 0 && cfg[0] == 5 {
+		return vServerStopExecRaw(cfg, ops)
 	}
 	if len(cfg) > 0 && cfg[0] == 2 {
 		return vServerStopExecSrv(cfg, ops)
@@ -530,6 +746,13 @@ func vServerStopGen(r *vRand, tier string, idx int) (cfg []int64, ops [][]int64)
 		return []int64{2, 1, 0}, [][]int64{st(1), rel(0, 4), G, G, st(1), rd(1), S, cc(0), rd(0)}
 	case 16:
 		return []int64{2, 4, 0}, [][]int64{st(1), rel(0, 0), G, rd(0), st(0)}
+	case 17: // a stream opened after the final GOAWAY (raw HTTP/2 client)
+		return []int64{5}, [][]int64{{1, 0}, {3}, {1, 0}}
+	case 18, 19, 20, 21: // handler limit with and without stream workers, handlers outliving their streams
+		n := []int64{1, 2, 2, 3}[idx-18]
+		w := []int64{0, 8, 1, 4}[idx-18]
+		rounds := int64(2)
+		return []int64{1, n, 2 * n * rounds, w, 1, rounds}, [][]int64{{int64(idx)}}
 	}
 	if idx%2 == 0 {
 		n := int64(0)
@@ -578,5 +801,5 @@ func vServerStopGen(r *vRand, tier string, idx int) (cfg []int64, ops [][]int64)
 
 func TestVerif_ServerStop(t *testing.T) {
 	vServerStopT = t
-	vRunDriver(t, "ServerStop", 70, 1200, vServerStopGen, vServerStopExec)
+	vRunDriver(t, "ServerStop", 74, 1204, vServerStopGen, vServerStopExec)
 }
